@@ -390,7 +390,7 @@ func init() {
 					return "dead"
 				}
 				res := withTimeout(20*time.Second, func() string { return relayOp(r, fs) })
-				if res == "stuck" || strings.Contains(res, "transport-error") {
+				if res == "stuck" || strings.Contains(res, "transport-error") || strings.HasPrefix(res, "0 ") {
 					r.hung++
 				} else {
 					r.hung = 0
